@@ -198,6 +198,93 @@ static void observe(std::ostream& o, M_& a, M_& b, bool fill)
   o << "K " << (sv ? 1 : 0) << " " << (si ? 1 : 0) << " " << w1 << " " << w2 << " ";
 }
 
+
+// ------------------------------------------------------------------------------------------------ aliased / pre-existing targets
+// kinds of target a two-argument member is called on:
+//   0 fresh (default constructed)   1 same shape: a deep clone of the source whose values are overwritten with 7
+//   2 transposed shape              3 other shape: an unrelated small matrix / same element count in another shape
+//   4 shallow clone of the source (shared arrays)
+template<typename M_>
+static void scramble(M_& t)
+{
+  auto& e = t.get_elements(); const auto& es = t.get_elements_size();
+  for(std::size_t k(0); k < e.size(); ++k) for(Index i(0); i < es[k]; ++i) e[k][i] = Q(7);
+}
+
+template<typename IT_> static void make_small(SparseMatrixCSR<Q, IT_>& t)
+{
+  DenseVector<IT_, IT_> ci(1, IT_(0)), rp(2); rp(0, IT_(0)); rp(1, IT_(1)); DenseVector<Q, IT_> v(1, Q(5));
+  t = SparseMatrixCSR<Q, IT_>(1, 1, ci, v, rp);
+}
+template<typename IT_> static void make_small(SparseMatrixCSCR<Q, IT_>& t)
+{
+  DenseVector<IT_, IT_> ci(1, IT_(0)), rp(2), rn(1, IT_(0)); rp(0, IT_(0)); rp(1, IT_(1)); DenseVector<Q, IT_> v(1, Q(5));
+  t = SparseMatrixCSCR<Q, IT_>(1, 1, ci, v, rp, rn);
+}
+template<typename IT_> static void make_small(SparseMatrixBanded<Q, IT_>& t)
+{
+  DenseVector<IT_, IT_> off(1, IT_(0)); DenseVector<Q, IT_> v(1, Q(5));
+  t = SparseMatrixBanded<Q, IT_>(1, 1, v, off);
+}
+template<typename IT_> static void make_small(DenseMatrix<Q, IT_>& t) { t = DenseMatrix<Q, IT_>(1, 1, Q(5)); }
+template<typename IT_, int BH_, int BW_> static void make_small(SparseMatrixBCSR<Q, IT_, BH_, BW_>& t)
+{
+  DenseVector<IT_, IT_> ci(1, IT_(0)), rp(2); rp(0, IT_(0)); rp(1, IT_(1)); DenseVector<Q, IT_> v(Index(BH_ * BW_), Q(5));
+  t = SparseMatrixBCSR<Q, IT_, BH_, BW_>(1, 1, ci, v, rp);
+}
+
+// same-format target of the given kind (kind 2 is shape specific and handled by the callers)
+template<typename M_>
+static bool prep_same(M_& t, const M_& a, Index kind)
+{
+  switch(kind)
+  {
+  case 0: return true;
+  case 1: t = a.clone(CloneMode::Deep); scramble(t); return true;
+  case 3: make_small(t); return true;
+  case 4: t = a.clone(CloneMode::Shallow); return true;
+  default: return false;
+  }
+}
+
+template<typename IT_>
+static bool prep_trt(DenseMatrix<Q, IT_>& t, const DenseMatrix<Q, IT_>& a, Index kind)
+{
+  const Index r = a.rows(), c = a.columns();
+  switch(kind)
+  {
+  case 0: return true;
+  case 1: t = DenseMatrix<Q, IT_>(r, c, Q(7)); return true;
+  case 2: t = DenseMatrix<Q, IT_>(c, r, Q(7)); return true;
+  case 3: if(r == 1) t = DenseMatrix<Q, IT_>(r * c, 1, Q(7)); else t = DenseMatrix<Q, IT_>(1, r * c, Q(7)); return true;
+  case 4: t = a.clone(CloneMode::Shallow); return true;
+  default: return false;
+  }
+}
+
+template<typename IT_>
+static bool prep_trt(SparseMatrixCSR<Q, IT_>& t, const SparseMatrixCSR<Q, IT_>& a, Index kind)
+{
+  switch(kind)
+  {
+  case 2: t = a.transpose(); scramble(t); return true;
+  case 3:
+  {
+    const Index n = a.used_elements();
+    if(n == 0) { t = SparseMatrixCSR<Q, IT_>(1, 1); return true; }
+    DenseVector<IT_, IT_> ci(n), rp(2); rp(0, IT_(0)); rp(1, IT_(n)); DenseVector<Q, IT_> v(n, Q(7));
+    for(Index i(0); i < n; ++i) ci(i, IT_(i));
+    t = SparseMatrixCSR<Q, IT_>(1, n, ci, v, rp);
+    return true;
+  }
+  default: return prep_same(t, a, kind);
+  }
+}
+
+// one segment "S <source afterwards> <target>" ; the target becomes the current matrix
+template<typename M_>
+static void out_src(std::ostream& o, const M_& src) { o << "S "; dump(o, src); o << " "; }
+
 // ------------------------------------------------------------------------------------------------ initial matrices
 template<typename IT_, int BH_, int BW_>
 static void init_bcsr(Cur& c, SparseMatrixBCSR<Q, IT_, BH_, BW_>& a)
@@ -403,6 +490,152 @@ static bool step(Cur& c, St<IT_>& s, std::ostream& o)
     if(!qq.empty()) pc = Adjacency::Permutation(Index(qq.size()), Adjacency::Permutation::ConstrType::perm, qq.data());
     s.csr.permute(pr, pc);
     return true;
+  }
+  if(op == "trs")
+  {
+    switch(s.fmt)
+    {
+    case F_CSR: s.csr.transpose(s.csr); return true;
+    case F_DENSE: s.dense.transpose(s.dense); return true;
+    case F_B22: s.b22.transpose(s.b22); return true;
+    default: return false;
+    }
+  }
+  if(op == "trt")
+  {
+    Index kind = c.idx();
+    if(s.fmt == F_CSR)
+    {
+      SparseMatrixCSR<Q, IT_> t;
+      if(!prep_trt(t, s.csr, kind)) return false;
+      t.transpose(s.csr); out_src(o, s.csr); s.csr = std::move(t); return true;
+    }
+    if(s.fmt == F_DENSE)
+    {
+      DenseMatrix<Q, IT_> t;
+      if(!prep_trt(t, s.dense, kind)) return false;
+      t.transpose(s.dense); out_src(o, s.dense); s.dense = std::move(t); return true;
+    }
+    if(s.fmt == F_B22)
+    {
+      SparseMatrixBCSR<Q, IT_, 2, 2> t;
+      if(kind == 2) { t = s.b22.transpose(); scramble(t); } else if(!prep_same(t, s.b22, kind)) return false;
+      t.transpose(s.b22); out_src(o, s.b22); s.b22 = std::move(t); return true;
+    }
+    if(s.fmt == F_B23)
+    {
+      SparseMatrixBCSR<Q, IT_, 3, 2> t;
+      if(kind == 2) { t = s.b23.transpose(); scramble(t); } else if(kind == 3) make_small(t); else if(kind != 0) return false;
+      t.transpose(s.b23); out_src(o, s.b23); s.b32 = std::move(t); s.b23 = SparseMatrixBCSR<Q, IT_, 2, 3>(); s.fmt = F_B32; return true;
+    }
+    if(s.fmt == F_B32)
+    {
+      SparseMatrixBCSR<Q, IT_, 2, 3> t;
+      if(kind == 2) { t = s.b32.transpose(); scramble(t); } else if(kind == 3) make_small(t); else if(kind != 0) return false;
+      t.transpose(s.b32); out_src(o, s.b32); s.b23 = std::move(t); s.b32 = SparseMatrixBCSR<Q, IT_, 3, 2>(); s.fmt = F_B23; return true;
+    }
+    return false;
+  }
+  if(op == "convs")
+  {
+    visit(s, [&](auto& a) { a.convert(a); });
+    return true;
+  }
+  if(op == "convt")
+  {
+    Index kind = c.idx(); std::string tf = c.str();
+    bool ok = true;
+    const int sf = s.fmt;
+    const bool same = (tf == "csr" && sf == F_CSR) || (tf == "banded" && sf == F_BANDED) || (tf == "cscr" && sf == F_CSCR)
+      || (tf == "dense" && sf == F_DENSE) || (tf == "bcsr" && sf >= F_B22);
+    if(same)
+    {
+      visit(s, [&](auto& a)
+      {
+        typedef typename std::decay<decltype(a)>::type M;
+        M t;
+        if(!prep_same(t, a, kind)) { ok = false; return; }
+        t.convert(a); out_src(o, a); a = std::move(t);
+      });
+      return ok;
+    }
+    if(kind != 0 && kind != 1 && kind != 3) return false;
+    if(tf == "csr" && sf != F_DENSE)
+    {
+      SparseMatrixCSR<Q, IT_> t;
+      visit(s, [&](auto& a)
+      {
+        typedef typename std::decay<decltype(a)>::type M;
+        if constexpr (!std::is_same<M, DenseMatrix<Q, IT_>>::value && !std::is_same<M, SparseMatrixCSR<Q, IT_>>::value)
+        {
+          if(kind == 1) { M a2 = a.clone(CloneMode::Deep); t.convert(a2); scramble(t); }
+          else if(kind == 3) make_small(t);
+          t.convert(a); out_src(o, a);
+        }
+      });
+      s.csr = std::move(t); s.fmt = F_CSR;
+      return true;
+    }
+    if(tf == "banded" && sf == F_CSR)
+    {
+      SparseMatrixBanded<Q, IT_> t;
+      if(kind == 1) { auto a2 = s.csr.clone(CloneMode::Deep); t.convert(a2); scramble(t); }
+      else if(kind == 3) make_small(t);
+      t.convert(s.csr); out_src(o, s.csr);
+      s.band = std::move(t); s.fmt = F_BANDED;
+      return true;
+    }
+    if(tf == "cscr" && sf == F_CSR)
+    {
+      SparseMatrixCSCR<Q, IT_> t;
+      if(kind == 1) { auto a2 = s.csr.clone(CloneMode::Deep); t.convert(a2); scramble(t); }
+      else if(kind == 3) make_small(t);
+      t.convert(s.csr); out_src(o, s.csr);
+      s.cscr = std::move(t); s.fmt = F_CSCR;
+      return true;
+    }
+    return false;
+  }
+  if(op == "clones" || op == "clonet")
+  {
+    const bool self = (op == "clones");
+    Index kind = self ? 0 : c.idx();
+    Index m = c.idx();
+    if(m > 3) return false;
+    const CloneMode cm = (m == 0 ? CloneMode::Shallow : m == 1 ? CloneMode::Layout : m == 2 ? CloneMode::Weak : CloneMode::Deep);
+    bool ok = true;
+    visit(s, [&](auto& a)
+    {
+      typedef typename std::decay<decltype(a)>::type M;
+      if(self) { a.clone(a, cm); return; }
+      M t;
+      if(!prep_same(t, a, kind)) { ok = false; return; }
+      t.clone(a, cm);
+      observe(o, a, t, cm == CloneMode::Layout);
+      out_src(o, a);
+      a = std::move(t);
+    });
+    return ok;
+  }
+  if(op == "copys")
+  {
+    visit(s, [&](auto& a) { a.copy(a); });
+    return true;
+  }
+  if(op == "copyt")
+  {
+    Index kind = c.idx();
+    if(kind != 1 && kind != 2 && kind != 4) return false; // copy() presupposes a target with the same layout
+    bool ok = true;
+    visit(s, [&](auto& a)
+    {
+      typedef typename std::decay<decltype(a)>::type M;
+      M t;
+      if(kind == 2) { t = a.clone(CloneMode::Layout); scramble(t); }
+      else if(!prep_same(t, a, kind)) { ok = false; return; }
+      t.copy(a); out_src(o, a); a = std::move(t);
+    });
+    return ok;
   }
   if(op == "it")
   {
